@@ -394,7 +394,11 @@ def gen_channels(rng):
             sa = rng.choice([1, 1, 1, 2, 3, 4, 8, 16])
             bu = rng.choice([1, 1, 1, 2, 3, 5, 8])
             size = lis.RC_SIZE[rc] * sa * bu
-        out.append({'mnem': rb(rng, 4), 'serv_id': rb(rng, 6), 'serv_ord': rb(rng, 8), 'units': rb(rng, 4), 'api': rng.randrange(0, 10 ** 8),
+        mnem = rb(rng, 4)
+        if rng.random() < 0.05:
+            # a channel whose name is blank or nulls is a channel all the same (it has a size, a code and data in every frame)
+            mnem = rng.choice([b'    ', b'\x00\x00\x00\x00', b' \x00 \x00', b'\x00   '])
+        out.append({'mnem': mnem, 'serv_id': rb(rng, 6), 'serv_ord': rb(rng, 8), 'units': rb(rng, 4), 'api': rng.randrange(0, 10 ** 8),
                     'file_no': rng.randrange(0, 32768), 'size': size, 'samples': sa, 'rc': rc, 'bursts': bu})
     return out
 
